@@ -1,3 +1,3 @@
 From Coq Require Import Extraction ExtrOcamlBasic.
-From TatsuV Require Import Base.PyStr Lib.Rle Lib.Queue.
-Extraction "packetz.ml" nums_witness rle_encode rle_decode rle_decode_twopass replace contains run recv.
+From TatsuV Require Import Base.PyStr Lib.Rle Lib.Queue Lib.QueueGen.
+Extraction "packetz.ml" nums_witness rle_encode rle_decode rle_decode_twopass replace contains run recv grun.
